@@ -24,7 +24,7 @@ RULE = ("products of <= 4 objects drawn from ERI, Coulomb integrals, "
         "targets are the Einstein targets or an explicit subset of <= 4 "
         "indices; every spin string of the targets is run.  Fixed inputs: "
         "all single objects, the definitions of all registered "
-        "intermediates, MP energies, the three defect sentinels.  A case is "
+        "intermediates, MP energies, the four inputs of the repaired defects (corpus).  A case is "
         "non-trivial if the term has at least one contracted index or at "
         "least two objects with a block table; distinct = distinct "
         "(term, targets, spins, mode) text")
@@ -44,12 +44,19 @@ ASSUMPTIONS = ["tensor values vanish outside the allowed spin blocks of their "
                "ERI expansion: <pq||rs> = d(sp,sr)d(sq,ss)(pr|qs) - "
                "d(sp,ss)d(sq,sr)(ps|qr)"]
 
-RESTRICTED_DELTA_KEY = "C15:restricted-delta-zero:delta_ij*f_ab[bbbb]"
-KNOWN_CLASSES = {
-    "no-table": "C15:no-table-term-dropped:f_ii",
-    "shallow-copy": "C15:shallow-copy-completion:delta_ij*e_a",
-    "repeated-index": "C15:repeated-index-block-raises:V_ijij",
+# corpus: the inputs on which the four defects repaired in /repo (commits 0c1e7ae,
+# 8f48ab3, 18a2580, 80a5ce3) showed; a failure on one of them is reported under
+# the stable key of the original finding
+SENTINEL_KEYS = {
+    "sentinel:f_ii": "C15:no-table-term-dropped:f_ii",
+    "sentinel:delta_ij*e_a": "C15:shallow-copy-completion:delta_ij*e_a",
+    "sentinel:V_ijij": "C15:repeated-index-block-raises:V_ijij",
+    "sentinel:delta_ij*f_ab": "C15:restricted-delta-zero:delta_ij*f_ab[bbbb]",
 }
+
+
+def vkey(cs, default):
+    return SENTINEL_KEYS.get(cs.label, default)
 
 
 class Case:
@@ -81,7 +88,9 @@ def has_table(o):
 
 
 def classify(term, tm_keys):
-    """structural class of a term w.r.t. the three known defects"""
+    """structural class of a term (input distribution only): 'no-table' = no
+    object has a block table, 'free-contracted' = some contracted index sits
+    only on objects without a table"""
     tabled = [o for o in term.objects if has_table(o)]
     idx = set(term.idx)
     if idx and not tabled:
@@ -90,7 +99,7 @@ def classify(term, tm_keys):
     for o in tabled:
         on_table.update(o.idx)
     if any(x not in on_table and x not in tm_keys for x in idx):
-        return "shallow-copy"
+        return "free-contracted"
     return None
 
 
@@ -272,7 +281,7 @@ def spin_strings(n):
 
 def stage_integrate(ctx, tabs, cases):
     """B: variants substituted by integrate_spin == model (code as it is),
-    numeric value check of the result, comparison with the patched model"""
+    numeric value check of the result"""
     itab_def = f"Definition ITAB : itable := {U.coq_itab(tabs)}.\n"
     rows, coq_cases = [], []
     for cs in cases:
@@ -300,11 +309,10 @@ def stage_integrate(ctx, tabs, cases):
             ob = U.observe_integrate(cs.expr(), cs.names, spins)
             tm = U.coq_tmap(zip(tgc, spins))
             lst = adcio.coq_list(x.coq() for x in tidx)
-            for fx in ("false", "true"):
-                coq_cases.append(
-                    f"rbind (integrate_atoms {fx} ITAB {tm} "
-                    f"{U.coq_atoms(atoms)}) (fun l => Ok (map (assign_list "
-                    f"{lst}) l))")
+            coq_cases.append(
+                f"rbind (integrate_atoms ITAB {tm} "
+                f"{U.coq_atoms(atoms)}) (fun l => Ok (map (assign_list "
+                f"{lst}) l))")
             coq_cases.append(
                 f"(iset_eqb {lst} (atoms_idx {U.coq_atoms(atoms)}), "
                 f"match sobjs_of ITAB {U.coq_atoms(atoms)} with "
@@ -312,14 +320,13 @@ def stage_integrate(ctx, tabs, cases):
             rows.append((cs, spins, ob, term, tidx_sym, tidx, tgc, ictx))
     vals, _ = ctx.coq_eval("integrate", coq_cases, header=U.COQ_HEADER,
                            defs=itab_def, shard=240)
-    stats = {"agree": 0, "class": {}}
-    class_hits = {k: [] for k in KNOWN_CLASSES}
+    stats = {"agree": 0, "ordered": 0, "multiset-only": 0}
     for n, (cs, spins, ob, term, tidx_sym, tidx, tgc, ictx) in \
             enumerate(rows):
-        m_impl = U.parse_res(vals[3 * n])
-        m_fix = U.parse_res(vals[3 * n + 1])
-        idx_ok = (vals[3 * n + 2] or "").replace(" ", "").startswith("(true,")
-        wf_ok = (vals[3 * n + 2] or "").replace(" ", "").endswith(",true)")
+        m_impl = U.parse_res(vals[2 * n])
+        chk = (vals[2 * n + 1] or "").replace(" ", "")
+        idx_ok = chk.startswith("(true,")
+        wf_ok = chk.endswith(",true)")
         label = f"{cs.label}[{spins}]"
         # --- observed
         if ob.exc is not None and not ob.exc_in_simplify:
@@ -333,11 +340,15 @@ def stage_integrate(ctx, tabs, cases):
             mi = ("exc", U.ERR_CLASS[m_impl[1]])
         else:
             mi = m_impl
+
         def ms(r):
             return r if r[0] != "ok" else ("ok", sorted(map(tuple, r[1])))
-        mf = m_fix if m_fix[0] != "err" else ("exc", U.ERR_CLASS[m_fix[1]])
-        same_impl = (py == mi)
-        same_fix = (ms(py) == ms(mf))
+        cls = classify(term, set(cs.targets))
+        same_ord = (py == mi)
+        # the order of the variants of one combination follows the iteration
+        # order of a Python set (missing contracted indices): compared as
+        # multisets when such indices exist
+        same = same_ord or (cls is not None and ms(py) == ms(mi))
         n_con = len([x for x in tidx if x not in tgc])
         n_tab = len([o for o in term.objects if has_table(o)])
         ctx.case(key=(str(cs.sym), cs.names, spins, "integrate"),
@@ -347,84 +358,42 @@ def stage_integrate(ctx, tabs, cases):
                          "variants": py[1] if py[0] == "exc" else
                          ["".join(x) for x in py[1]][:8]},
                  kind=f"integrate:objs{min(len(term.objects), 5)}:"
-                      f"tg{len(spins)}")
+                      f"tg{len(spins)}" + (f":{cls}" if cls else ""))
         ctx.obligation(f"term indices == model atoms_idx {label}", idx_ok)
         ctx.obligation(f"hypothesis wf_objs of the theorems holds {label}",
                        wf_ok, "wf_objs_b = false")
-        # the implementation must follow the model of the code as it is, or
-        # the model with the patches of the findings applied
         if not ctx.obligation(f"integrate_spin variants == model {label}",
-                              same_impl or same_fix,
-                              f"python {py} model {mi} patched {mf}"):
+                              same, f"python {py} model {mi}"):
             ctx.violation(
-                f"C15:variants:{cs.label}:{spins}",
+                vkey(cs, f"C15:variants:{cs.label}:{spins}"),
                 "the substitutions performed by integrate_spin differ from "
-                "the model integrate_atoms (Models/Spin.v), with and without "
-                "the patches",
+                "the model integrate_atoms (Models/Spin.v), i.e. from the "
+                "enumeration of C15_integrate_enumerates",
                 {"term": str(cs.sym), "targets": cs.names, "spins": spins,
-                 "python": py, "model": mi, "model_patched": mf,
-                 "correspondence": "integrate_atoms"}, False)
+                 "python": py, "model": mi,
+                 "correspondence": "integrate_atoms"}, py[0] == "exc")
             continue
         stats["agree"] += 1
-        stats["patched" if same_fix else "unpatched-only"] = stats.get(
-            "patched" if same_fix else "unpatched-only", 0) + 1
-        cls = classify(term, set(cs.targets))
-        if py[0] == "exc" and py[1] == "ValueError" and \
-                "invalid allowed spin block" in getattr(ob, "exc_msg", ""):
-            cls = "repeated-index"
+        stats["ordered" if same_ord else "multiset-only"] += 1
         # --- value check (failing-input search / validation of the model)
-        bad = None
-        if ob.exc is None:
-            check_targets(ctx, cs, spins, ob.result, spins, "integrate_spin")
-            bad = value_check(ctx, cs, spins, ob.result, tabs)
-        elif ob.exc_in_simplify:
-            k = "simplify-raises(TODO in source: polynoms)"
+        if ob.exc is not None:
+            if ob.exc_in_simplify:
+                k = "simplify-raises(TODO in source: polynoms)"
+            else:
+                k = "rejected-input"
             ctx.dist[k] = ctx.dist.get(k, 0) + 1
-        if same_fix and bad is None:
-            if py[0] == "exc":
-                ctx.dist["rejected-input"] = ctx.dist.get(
-                    "rejected-input", 0) + 1
             continue
-        # the enumeration differs from the proved one (C15_integrate_enumerates)
-        # or the value differs
-        if not same_fix and cls in KNOWN_CLASSES:
-            class_hits[cls].append((cs, spins, py, mf, bad))
-            continue
-        ctx.obligation(f"value / patched model {label}", False,
-                       f"impl {mi} fixed {mf} diff {bad}")
-        ctx.violation(
-            f"C15:value:{cs.label}:{spins}",
-            "integrate_spin result differs from the proved enumeration or "
-            "in value from the spin-orbital expression on the requested "
-            "block",
-            {"term": str(cs.sym), "targets": cs.names,
-             "spins": spins, "python": py, "model_patched": mf,
-             "difference": bad, "theorem": "C15_integrate_value"},
-            bad is not None or py[0] == "exc")
-    for cls, hits in class_hits.items():
-        key = KNOWN_CLASSES[cls]
-        sent = [h for h in hits if h[0].label.startswith("sentinel")]
-        ctx.dist[f"defect-class:{cls}"] = len(hits)
-        if sent:
-            cs, spins, py, m_fix, bad = sent[0]
+        check_targets(ctx, cs, spins, ob.result, spins, "integrate_spin")
+        bad = value_check(ctx, cs, spins, ob.result, tabs)
+        if not ctx.obligation(f"value of integrate_spin {label}",
+                              bad is None, str(bad)):
             ctx.violation(
-                key,
-                f"integrate_spin violates the property (class {cls})",
-                {"term": str(cs.sym), "targets": cs.names, "spins": spins,
-                 "python": py, "model_patched": m_fix, "difference": bad,
-                 "further_generated_inputs_in_class": len(hits) - len(sent),
-                 "examples": [str(h[0].sym)[:120] for h in hits[:6]]},
-                True)
-        elif hits:
-            cs, spins, py, m_fix, bad = hits[0]
-            ctx.violation(
-                f"C15:{cls}:{cs.label}:{spins}",
-                f"integrate_spin violates the property (class {cls}) but "
-                "the sentinel input does not",
-                {"term": str(cs.sym), "targets": cs.names, "spins": spins,
-                 "python": py, "model_patched": m_fix, "difference": bad},
-                bad is not None or py[0] == "exc")
-    stats.pop("class", None)
+                vkey(cs, f"C15:value:{cs.label}:{spins}"),
+                "integrate_spin result differs in value from the "
+                "spin-orbital expression on the requested block",
+                {"term": str(cs.sym), "targets": cs.names,
+                 "spins": spins, "python": py, "difference": bad,
+                 "theorem": "C15_integrate_value"}, True)
     stats["rows"] = len(rows)
     ctx.extra["integrate_stats"] = stats
 
@@ -709,7 +678,7 @@ def stage_pipeline(ctx, tabs, cases, quick):
         if E.sympy == 0:
             continue
         term = E.terms[0]
-        if len(E.terms) != 1 or classify(term, set(cs.targets)) is not None:
+        if len(E.terms) != 1:
             continue
         if any(o.name == "V" and o.bra_ket_sym != 1 for o in term.objects
                if not o.sympy.is_number and hasattr(o, "name")):
@@ -735,11 +704,11 @@ def stage_pipeline(ctx, tabs, cases, quick):
             tm = U.coq_tmap(zip(tgc, spins))
             allidx = adcio.coq_list(
                 x.coq() for x in all_idx_list([p_pre]))
-            coq_cases.append("(" + ", ".join(
-                f"match integrate_expr {fx} ITAB {tm} "
+            coq_cases.append(
+                f"match integrate_expr ITAB {tm} "
                 f"{adcio.coq_expr(p_in)} with | Ok e1 => Ok (check_equiv "
                 f"{allidx} [] [] e1 {adcio.coq_expr(p_pre)}) "
-                f"| Err c => Err c end" for fx in ("false", "true")) + ")")
+                f"| Err c => Err c end")
             rows.append(("integrate", cs, spins, None))
             tg_out = get_symbols(cs.names, spins) if cs.targets else []
             pairs.append(EQ.Pair(Add(*ob.pre), ob.result.sympy, tg_out,
@@ -764,31 +733,27 @@ def stage_pipeline(ctx, tabs, cases, quick):
                 allidx = adcio.coq_list(
                     x.coq() for x in all_idx_list([p_int, p_out]))
                 coq_cases.append(
-                    "(" + ", ".join(
-                        f"match rbind ({'expand_eri_expr' if expand else 'Ok'}"
-                        f" {adcio.coq_expr(p_int)}) "
-                        f"{'(restrict_expr ' + fx + ')' if restricted else 'Ok'}"
-                        f" with | Ok e1 => Ok (check_equiv {allidx} [] [] e1 "
-                        f"{adcio.coq_expr(p_out)}) | Err c => Err c end"
-                        for fx in ("false", "true")) + ")")
+                    f"match rbind ({'expand_eri_expr' if expand else 'Ok'}"
+                    f" {adcio.coq_expr(p_int)}) "
+                    f"{'restrict_expr' if restricted else 'Ok'}"
+                    f" with | Ok e1 => Ok (check_equiv {allidx} [] [] e1 "
+                    f"{adcio.coq_expr(p_out)}) | Err c => Err c end")
                 rows.append(("transform", cs, spins,
                              (restricted, expand, py)))
     vals, _ = ctx.coq_eval("pipeline", coq_cases, header=U.COQ_HEADER,
                            defs=itab_def, shard=60)
-    delta_hits = []
     for (what, cs, spins, extra), v in zip(rows, vals):
         label = f"{cs.label}[{spins}]"
-        v1, v2 = split_pair(v)
-        mv, mv_fix = U.parse_res(v1), U.parse_res(v2)
+        mv = U.parse_res(v)
         if what == "integrate":
-            same = mv == ("ok", True) or mv_fix == ("ok", True)
+            same = mv == ("ok", True)
             ctx.case(key=(str(cs.sym), cs.names, spins, "pre"),
                      kind="pipeline:integrate_expr")
             if not ctx.obligation(
                     f"integrate_expr model == contribution before simplify "
                     f"{label}", same, str(mv)):
                 ctx.violation(
-                    f"C15:integrate-expr:{cs.label}:{spins}",
+                    vkey(cs, f"C15:integrate-expr:{cs.label}:{spins}"),
                     "the sum of substituted terms built by integrate_spin "
                     "differs from the model integrate_expr",
                     {"term": str(cs.sym), "targets": cs.names,
@@ -801,8 +766,7 @@ def stage_pipeline(ctx, tabs, cases, quick):
             if py[0] == "ok":
                 return m == ("ok", True)
             return m[0] == "err" and U.ERR_CLASS[m[1]] == py[1]
-        same, same_fix = acc(mv), acc(mv_fix)
-        same = same or same_fix
+        same = acc(mv)
         ctx.case(key=(str(cs.sym), cs.names, spins, mode),
                  kind=f"pipeline:{mode}",
                  sample={"label": label, "mode": mode,
@@ -811,7 +775,7 @@ def stage_pipeline(ctx, tabs, cases, quick):
         if not ctx.obligation(f"transform {mode} == model {label}", same,
                               f"python {str(py)[:300]} model {mv}"):
             ctx.violation(
-                f"C15:transform:{cs.label}:{spins}:{mode}",
+                vkey(cs, f"C15:transform:{cs.label}:{spins}:{mode}"),
                 "transform_to_spatial_orbitals differs from the model "
                 "(expand_eri_expr / restrict_expr)",
                 {"term": str(cs.sym), "targets": cs.names, "spins": spins,
@@ -825,41 +789,15 @@ def stage_pipeline(ctx, tabs, cases, quick):
                       f"transform {mode}")
         bad = value_check(ctx, cs, spins, py[1], tabs, restricted=restricted,
                           eri_from_coulomb=expand)
-        if not same_fix:
-            # sequential substitution through delta(alpha, beta) = 0
-            delta_hits.append((cs, spins, mode, str(py[1].sympy), bad))
-            continue
         if not ctx.obligation(f"value of transform {mode} {label}",
                               bad is None, str(bad)):
             ctx.violation(
-                f"C15:transform-value:{cs.label}:{spins}:{mode}",
+                vkey(cs, f"C15:transform-value:{cs.label}:{spins}:{mode}"),
                 "transform_to_spatial_orbitals result differs in value from "
                 "the spin-orbital expression on the requested block",
                 {"term": str(cs.sym), "targets": cs.names, "spins": spins,
                  "mode": mode, "python": str(py[1])[:1000],
                  "difference": bad}, True)
-    ctx.dist["defect-class:restricted-delta"] = len(delta_hits)
-    sent = [h for h in delta_hits if h[0].label.startswith("sentinel")]
-    if sent:
-        cs, spins, mode, out, bad = sent[0]
-        ctx.violation(
-            RESTRICTED_DELTA_KEY,
-            "transform_to_spatial_orbitals(restricted=True) loses terms with "
-            "a Kronecker delta of beta indices",
-            {"term": str(cs.sym), "targets": cs.names, "spins": spins,
-             "mode": mode, "python": out, "difference": bad,
-             "further_generated_inputs_in_class": len(delta_hits) - len(sent),
-             "examples": [str(h[0].sym)[:120] for h in delta_hits[:6]]},
-            bad is not None)
-    elif delta_hits:
-        cs, spins, mode, out, bad = delta_hits[0]
-        ctx.violation(
-            f"C15:restricted-delta:{cs.label}:{spins}:{mode}",
-            "transform_to_spatial_orbitals(restricted=True) loses terms with "
-            "a Kronecker delta of beta indices (sentinel does not reproduce)",
-            {"term": str(cs.sym), "targets": cs.names, "spins": spins,
-             "mode": mode, "python": out, "difference": bad},
-            bad is not None)
     EQ.run_pairs(ctx, "simplify", pairs, shard=30)
     for p in pairs:
         if p.ok is None:
